@@ -94,16 +94,14 @@ class SpecArray(object):
     @property
     def dd(self):
         """Direction resolution float."""
-        if self._dd is not None:
-            return self._dd
+        # Not memoised: the accessor is cached by xarray so the direction coordinate may
+        # be reassigned in place after the first call
         if self.dir is not None and len(self.dir) > 1:
             # Use sorted directions so the bin width does not depend on where the
             # stored sequence starts (e.g., [330, 0, 30, ...] has a 30 deg width)
             dirs = np.sort(self.dir.values)
-            self._dd = abs(float(dirs[1] - dirs[0]))
-        else:
-            self._dd = 1.0
-        return self._dd
+            return abs(float(dirs[1] - dirs[0]))
+        return 1.0
 
     @property
     def partition(self):
